@@ -280,6 +280,16 @@ def c04():
     return obs
 
 
+def pfc_header_obs(prop, generic=False):
+    """header fields at full width: hand-written image with arbitrary header values (see h_pfc_header)"""
+    nm = '%s.pfc.header%s' % (prop.lower(), '.generic' if generic else '')
+    d = {'VS_BOUND': 34 + 9 + 8}
+    if generic: d['GENERIC_LOADER'] = None
+    o = pfc(nm, prop, 'h_pfc_header', 2, 1, 2, defs=d, timeout=600)
+    o.bounds = 'image header with ARBITRARY elements (2^64), maxlength, buckets, bucketsize (2^32 each); 2-byte text, 2-entry offset sequence; no query issued'
+    return [o]
+
+
 def c06():
     obs = pfc_family('C06', 'pfc', 'h_pfc_saveload', quick_bs=(2, 3), quick_shapes=[[1, 2, 2], [2, 2, 2]], sym_n2=False, timeout_q=600)
     obs += pfc_family('C06', 'pfc.generic', 'h_pfc_saveload', quick_bs=(2,), quick_shapes=[[2, 1, 2]], sym_n2=False, timeout_q=600, extra_defs={'GENERIC_LOADER': None}, thorough_extra=False)
@@ -289,6 +299,7 @@ def c06():
     obs += [o for o in bitseq_obs('C06', parts=()) ]
     obs += logseq_obs('C06')
     obs += kind_obs('C06', ['dispatch'])
+    obs += pfc_header_obs('C06') + pfc_header_obs('C06', generic=True)
     return obs
 
 
@@ -321,6 +332,7 @@ def c08():
     obs += dac_obs('C08', what=('saveload', 'bvls'))
     obs += logseq_obs('C08')
     obs += coder_obs('C08', ('tree',))
+    obs += pfc_header_obs('C08')
     return obs
 
 
@@ -353,6 +365,7 @@ def c14():
 def c15():
     obs = pfc_family('C15', 'pfc', 'h_pfc_c01', quick_shapes=[[2, 2, 2], [1, 2, 1]])
     obs += pfc_family('C15', 'pfc.reload', 'h_pfc_saveload', quick_bs=(2,), quick_shapes=[[1, 2, 2]], sym_n2=False, timeout_q=600, thorough_extra=False)
+    obs += pfc_header_obs('C15') + pfc_header_obs('C15', generic=True)
     return obs
 
 
